@@ -82,6 +82,16 @@ func normalizeDocument(schema *Schema, doc *ast.Document, operationName string) 
 		newVarDefs: nil,
 	}
 
+	// Fragment definitions stay as they are, so a field that takes
+	// arguments inside one keeps its literals there; the same field must
+	// then keep them in the operation too, or occurrences that merged
+	// before normalization would have differing arguments after it.
+	for _, def := range doc.Definitions {
+		if frag, ok := def.(*ast.FragmentDefinition); ok {
+			ctx.noteFragmentFields(frag.SelectionSet)
+		}
+	}
+
 	newOp := cloneOperation(op)
 	ctx.normalizeSelectionSet(newOp.SelectionSet, rootType)
 
@@ -361,6 +371,30 @@ type normCtx struct {
 	// synthesized for it: equal literals must stay equal arguments, or
 	// fields that merged before normalization would conflict after it.
 	byLiteral map[string]string
+
+	// keptLiteral names the fields that take arguments inside a fragment
+	// definition; their literals are not extracted anywhere.
+	keptLiteral map[string]bool
+}
+
+func (c *normCtx) noteFragmentFields(sel *ast.SelectionSet) {
+	if sel == nil {
+		return
+	}
+	for _, isel := range sel.Selections {
+		switch s := isel.(type) {
+		case *ast.Field:
+			if len(s.Arguments) > 0 && s.Name != nil {
+				if c.keptLiteral == nil {
+					c.keptLiteral = map[string]bool{}
+				}
+				c.keptLiteral[s.Name.Value] = true
+			}
+			c.noteFragmentFields(s.SelectionSet)
+		case *ast.InlineFragment:
+			c.noteFragmentFields(s.SelectionSet)
+		}
+	}
 }
 
 func (c *normCtx) nextName() string {
@@ -409,7 +443,7 @@ func (c *normCtx) normalizeField(f *ast.Field, parentType *Object) {
 	if fieldDef == nil {
 		return
 	}
-	if len(f.Arguments) > 0 {
+	if len(f.Arguments) > 0 && !c.keptLiteral[fieldName] {
 		// Build an arg-name → argDef map for O(1) lookup.
 		argDefByName := make(map[string]*Argument, len(fieldDef.Args))
 		for _, ad := range fieldDef.Args {
